@@ -174,6 +174,10 @@ class Config:
         return out
 
 
+LONG_WORDS = ["alpha", "bravo", "charlie", "delta", "echo", "foxtrot", "golf", "hotel", "india", "juliett", "kilo", "lima", "mike", "november",
+              "oscar", "papa", "quebec", "romeo", "sierra", "tango"]
+
+
 def gen_variant_config(rng, ndev=None, max_plugs=5):
     """configurations for the selection properties (C01/C02): 1-4 devices, each with 1-max_plugs plugs,
     hard-wired or free names, 0-2 unused plugs, any subset of {singlet, ranged, all} per command."""
@@ -181,6 +185,9 @@ def gen_variant_config(rng, ndev=None, max_plugs=5):
     ndev = ndev or rng.choice([1, 1, 2, 2, 3, 4])
     nodeno = 0
     pad = rng.choice([0, 0, 2, 3])
+    # one configuration in eight names its nodes with long words that do not compress (ranged text of a reply list >= 80 bytes: the
+    # growth path of the _xhostlist_ranged_string helpers in client.c / device.c)
+    long_names = rng.random() < 0.125
     for di in range(ndev):
         name = "d%d" % di
         kinds = ["login"]
@@ -209,7 +216,8 @@ def gen_variant_config(rng, ndev=None, max_plugs=5):
         cfg.truth[name] = {p: None for p in pnames} if hard else {}
         nodes = []
         for k in range(nplugs):
-            nodes.append("n" + (str(nodeno).zfill(pad) if pad else str(nodeno))); nodeno += 1
+            nodes.append((LONG_WORDS[nodeno % len(LONG_WORDS)] + "-compute-blade" + ("x" * (nodeno // len(LONG_WORDS)))) if long_names
+                         else "n" + (str(nodeno).zfill(pad) if pad else str(nodeno))); nodeno += 1
         if hard:
             used = rng.sample(pnames, nplugs) if rng.random() < 0.5 else pnames[:nplugs]
             style = rng.choice(["pairs", "list", "nextfree"]) if used == pnames[:nplugs] else rng.choice(["pairs", "list"])
